@@ -4,20 +4,413 @@
 
 package mapping
 
-// Constructors from a base (gamma) and an index offset: refuse gamma <= 1; otherwise a mapping satisfying the
-// interface contract MapOK.
+//@ func withinTolerance
+//@   serves C19
+//@   ensures result == WithinTol(x, y, tolerance)
+
+// ---------------------------------------------------------------- LogarithmicMapping
+//@ func LogarithmicMapping.Index
+//@   serves C03 C01 C13
+//@   uses FloorIdx$def LX$def
+//@   requires MapOK(m) && MMin(m) <= value && value <= MMax(m)
+//@   ensures result == MIdx(m, value) && in32(result)
+//@ func LogarithmicMapping.LowerBound
+//@   serves C03 C17
+//@   uses EB$def
+//@   requires MapOK(m)
+//@   ensures result == MLB(m, index)
+//@ func LogarithmicMapping.Value
+//@   serves C03 C01
+//@   requires MapOK(m)
+//@   ensures result == MVal(m, index)
+//@ func LogarithmicMapping.RelativeAccuracy
+//@   serves C03
+//@   requires MapOK(m)
+//@   ensures result == MAlpha(m)
+//@ func LogarithmicMapping.MinIndexableValue
+//@   serves C03 C13
+//@   requires MapOK(m)
+//@   ensures result == MMin(m)
+//@ func LogarithmicMapping.MaxIndexableValue
+//@   serves C03 C13
+//@   requires MapOK(m)
+//@   ensures result == MMax(m)
+//@ func LogarithmicMapping.Equals
+//@   serves C19 C13 C02
+//@   requires MapOK(m)
+//@   ensures result == MEq(m, other)
+
+// ---------------------------------------------------------------- LinearlyInterpolatedMapping
+//@ func LinearlyInterpolatedMapping.Index
+//@   serves C03 C01 C13
+//@   uses FloorIdx$def LinLX$def
+//@   requires MapOK(m) && MMin(m) <= value && value <= MMax(m)
+//@   ensures result == MIdx(m, value) && in32(result)
+//@ func LinearlyInterpolatedMapping.LowerBound
+//@   serves C03 C17
+//@   uses LinEB$def
+//@   requires MapOK(m)
+//@   ensures result == MLB(m, index)
+//@ func LinearlyInterpolatedMapping.Value
+//@   serves C03 C01
+//@   requires MapOK(m)
+//@   ensures result == MVal(m, index)
+//@ func LinearlyInterpolatedMapping.RelativeAccuracy
+//@   serves C03
+//@   uses ExpPos
+//@   requires MapOK(m)
+//@   ensures result == MAlpha(m)
+//@ func LinearlyInterpolatedMapping.MinIndexableValue
+//@   serves C03 C13
+//@   requires MapOK(m)
+//@   ensures result == MMin(m)
+//@ func LinearlyInterpolatedMapping.MaxIndexableValue
+//@   serves C03 C13
+//@   requires MapOK(m)
+//@   ensures result == MMax(m)
+//@ func LinearlyInterpolatedMapping.Equals
+//@   serves C19 C13 C02
+//@   requires MapOK(m)
+//@   ensures result == MEq(m, other)
+
+// ---------------------------------------------------------------- CubicallyInterpolatedMapping
+//@ func CubicallyInterpolatedMapping.Index
+//@   serves C03 C01 C13
+//@   uses FloorIdx$def CubLX$def
+//@   requires MapOK(m) && MMin(m) <= value && value <= MMax(m)
+//@   ensures result == MIdx(m, value) && in32(result)
+//@ func CubicallyInterpolatedMapping.LowerBound
+//@   serves C03 C17
+//@   uses CubEB$def
+//@   requires MapOK(m)
+//@   ensures result == MLB(m, index)
+//@ func CubicallyInterpolatedMapping.Value
+//@   serves C03 C01
+//@   requires MapOK(m)
+//@   ensures result == MVal(m, index)
+//@ func CubicallyInterpolatedMapping.RelativeAccuracy
+//@   serves C03
+//@   uses ExpPos
+//@   requires MapOK(m)
+//@   ensures result == MAlpha(m)
+//@ func CubicallyInterpolatedMapping.MinIndexableValue
+//@   serves C03 C13
+//@   requires MapOK(m)
+//@   ensures result == MMin(m)
+//@ func CubicallyInterpolatedMapping.MaxIndexableValue
+//@   serves C03 C13
+//@   requires MapOK(m)
+//@   ensures result == MMax(m)
+//@ func CubicallyInterpolatedMapping.Equals
+//@   serves C19 C13 C02
+//@   requires MapOK(m)
+//@   ensures result == MEq(m, other)
+
+// approximateLog / approximateInverseLog read and build the IEEE-754 bit pattern; outside the real-arithmetic model.
+//@ func LinearlyInterpolatedMapping.approximateLog
+//@   serves C03
+//@   trusted bit-level function (math.Float64bits); denoted by the uninterpreted LinALog in real arithmetic
+//@   ensures result == LinALog(x)
+//@ func LinearlyInterpolatedMapping.approximateInverseLog
+//@   serves C03
+//@   trusted bit-level function (buildFloat64); denoted by the uninterpreted LinAInv in real arithmetic
+//@   ensures result == LinAInv(x)
+//@ func CubicallyInterpolatedMapping.approximateLog
+//@   serves C03
+//@   trusted bit-level function (math.Float64bits); denoted by the uninterpreted CubALog in real arithmetic
+//@   ensures result == CubALog(x)
+//@ func CubicallyInterpolatedMapping.approximateInverseLog
+//@   serves C03
+//@   trusted bit-level function (buildFloat64, Cardano's formula); denoted by the uninterpreted CubAInv in real arithmetic
+//@   ensures result == CubAInv(x)
+
+// ---------------------------------------------------------------- lemmas about the logarithmic bin bounds (reals)
+
+//@ lemma LogI1(i int, j int, off real, mult real)
+//@   serves C03
+//@   requires mult > 0.0 && i < j
+//@   ensures 0.0 < EB(i, off, mult) && EB(i, off, mult) < EB(j, off, mult) using ExpPos((float64(i) - off) / mult), ExpMono((float64(i) - off) / mult, (float64(j) - off) / mult), EB$def(i, off, mult), EB$def(j, off, mult)
+//@   pattern EB(i, off, mult), EB(j, off, mult)
+
+//@ lemma LogStep(i int, off real, mult real, gamma real)
+//@   serves C03
+//@   requires gamma > 1.0 && mult == 1.0 / ln(gamma)
+//@   ensures EB(i + 1, off, mult) == EB(i, off, mult) * gamma using ExpAdd((float64(i) - off) / mult, ln(gamma)), ExpLn(gamma), LnPos(gamma), EB$def(i, off, mult), EB$def(i + 1, off, mult)
+
+//@ lemma LogI5(i int, j int, off real, mult real, gamma real)
+//@   serves C03
+//@   requires gamma > 1.0 && mult == 1.0 / ln(gamma) && j == i + 1
+//@   ensures I5At(EB(j, off, mult), EB(i, off, mult), 1.0 - 2.0 / (1.0 + gamma)) using LogStep(i, off, mult, gamma), ExpPos((float64(i) - off) / mult), EB$def(i, off, mult), I5At$def(EB(j, off, mult), EB(i, off, mult), 1.0 - 2.0 / (1.0 + gamma))
+//@   pattern EB(i, off, mult), EB(j, off, mult), ln(gamma)
+
+//@ lemma LogI2(v real, off real, mult real)
+//@   serves C03
+//@   requires mult > 0.0 && v > 0.0 && -2147483648.0 < LX(v, off, mult) && LX(v, off, mult) <= 2147483647.0
+//@   ensures in32(FloorIdx(LX(v, off, mult))) && EB(FloorIdx(LX(v, off, mult)), off, mult) <= v && v <= EB(FloorIdx(LX(v, off, mult)) + 1, off, mult) using ExpLn(v), ExpMonoLe((float64(FloorIdx(LX(v, off, mult))) - off) / mult, ln(v)), ExpMonoLe(ln(v), (float64(FloorIdx(LX(v, off, mult)) + 1) - off) / mult), FloorIdx$def(LX(v, off, mult)), LX$def(v, off, mult), EB$def(FloorIdx(LX(v, off, mult)), off, mult), EB$def(FloorIdx(LX(v, off, mult)) + 1, off, mult)
+
+//@ lemma LogLow(v real, off real, mult real)
+//@   serves C03
+//@   requires mult > 0.0 && v >= exp((-2147483648.0 - off) / mult + 1.0)
+//@   ensures v > 0.0 && LX(v, off, mult) >= -2147483648.0 + mult using ExpPos((-2147483648.0 - off) / mult + 1.0), LnMonoLe(exp((-2147483648.0 - off) / mult + 1.0), v), LnExp((-2147483648.0 - off) / mult + 1.0), LX$def(v, off, mult)
+
+//@ lemma LogHigh(v real, off real, mult real)
+//@   serves C03
+//@   requires mult > 0.0 && v > 0.0 && v <= exp((2147483647.0 - off) / mult - 1.0)
+//@   ensures LX(v, off, mult) <= 2147483647.0 using LnMonoLe(v, exp((2147483647.0 - off) / mult - 1.0)), LnExp((2147483647.0 - off) / mult - 1.0), LX$def(v, off, mult)
+
+//@ lemma LogI3(v real, w real, off real, mult real)
+//@   serves C03
+//@   requires mult > 0.0 && 0.0 < v && v <= w && -2147483648.0 <= LX(v, off, mult) && LX(w, off, mult) <= 2147483647.0
+//@   ensures FloorIdx(LX(v, off, mult)) <= FloorIdx(LX(w, off, mult)) using LnMonoLe(v, w), LX$def(v, off, mult), LX$def(w, off, mult), FloorIdx$def(LX(v, off, mult)), FloorIdx$def(LX(w, off, mult))
+
+//@ lemma LogI2c(v real, off real, mult real)
+//@   serves C03
+//@   requires mult > 0.0 && v >= exp((-2147483648.0 - off) / mult + 1.0) && v <= exp((2147483647.0 - off) / mult - 1.0)
+//@   ensures in32(FloorIdx(LX(v, off, mult))) && EB(FloorIdx(LX(v, off, mult)), off, mult) <= v && v <= EB(FloorIdx(LX(v, off, mult)) + 1, off, mult) using LogLow(v, off, mult), LogHigh(v, off, mult), LogI2(v, off, mult)
+//@   pattern LX(v, off, mult)
+
+//@ lemma LogI3c(v real, w real, off real, mult real)
+//@   serves C03
+//@   requires mult > 0.0 && v >= exp((-2147483648.0 - off) / mult + 1.0) && v <= w && w <= exp((2147483647.0 - off) / mult - 1.0)
+//@   ensures FloorIdx(LX(v, off, mult)) <= FloorIdx(LX(w, off, mult)) using LogLow(v, off, mult), LogHigh(w, off, mult), LogI3(v, w, off, mult)
+//@   pattern LX(v, off, mult), LX(w, off, mult)
+
+// ---------------------------------------------------------------- constructors
+// From a base (gamma) and an index offset: refuse gamma <= 1; otherwise the fields are as given and the mapping
+// satisfies the interface contract MapOK (C03), for every offset.
 //@ func NewLogarithmicMappingWithGamma
 //@   serves C03 C13 C19
-//@   trusted MapOK of the constructed mapping is established in DESIGN 4 C03 (exp/ln axioms); assumed here until those obligations are generated
+//@   uses LogI1 LogI5 LogI2c LogI3c LnPos ExpPos
 //@   ensures reject: gamma <= 1.0 ==> result == nil && result1 != nil
-//@   ensures accept: gamma > 1.0 ==> result1 == nil && result != nil && fresh(result) && MapOK(result) && result.gamma == gamma && result.indexOffset == indexOffset
+//@   ensures accept: gamma > 1.0 ==> result1 == nil && result != nil && fresh(result) && result.gamma == gamma && result.indexOffset == indexOffset
+//@   ensures ok: gamma > 1.0 && result.minIndexableValue <= result.maxIndexableValue ==> MapOK(result)
+
+//@ lemma AlphaOfGamma(a real)
+//@   serves C03
+//@   requires 0.0 < a && a < 1.0
+//@   ensures 1.0 - 2.0 / (1.0 + (1.0 + a) / (1.0 - a)) == a
+
+// From a relative accuracy: refused outside (0,1); otherwise the mapping reports exactly that accuracy.
+//@ func NewLogarithmicMapping
+//@   serves C03 C13 C19
+//@   ensures reject: !(relativeAccuracy > 0.0 && relativeAccuracy < 1.0) ==> result == nil && result1 != nil
+//@   ensures accept: relativeAccuracy > 0.0 && relativeAccuracy < 1.0 ==> result1 == nil && result != nil && fresh(result) && (result.minIndexableValue <= result.maxIndexableValue ==> MapOK(result)) && result.indexOffset == 0.0 && result.gamma == (1.0 + relativeAccuracy) / (1.0 - relativeAccuracy)
+//@   ensures accuracy: relativeAccuracy > 0.0 && relativeAccuracy < 1.0 ==> MAlpha(result) == relativeAccuracy using AlphaOfGamma(relativeAccuracy)
+
+//@ func NewDefaultMapping
+//@   serves C03 C13
+//@   ensures reject: !(relativeAccuracy > 0.0 && relativeAccuracy < 1.0) ==> result1 != nil
+//@   ensures accept: relativeAccuracy > 0.0 && relativeAccuracy < 1.0 ==> result1 == nil && result != nil && (MRange(result) ==> MapOK(result)) && MAlpha(result) == relativeAccuracy
+
+
+// ---------------------------------------------------------------- LinearlyInterpolatedMapping: assumed analytic properties of
+// approximateLog (LinALog) and approximateInverseLog (LinAInv) - TRUSTED, not proved (bit-level code, see DESIGN):
+// the inverse is positive, strictly increasing and inverts LinALog on the positive reals; LinALog is
+// non-decreasing and within 1 of log2; over a step d >= 0 the inverse grows by at most exp(d).
+//@ axiom LinAInvPos(x real)
+//@   ensures LinAInv(x) > 0.0
+//@ axiom LinAInvMono(x real, y real)
+//@   requires x < y
+//@   ensures LinAInv(x) < LinAInv(y)
+//@ axiom LinAInvLog(v real)
+//@   requires v > 0.0
+//@   ensures LinAInv(LinALog(v)) == v
+//@ axiom LinALogMono(v real, w real)
+//@   requires 0.0 < v && v <= w
+//@   ensures LinALog(v) <= LinALog(w)
+//@ axiom LinALogNear(v real)
+//@   requires v > 0.0
+//@   ensures log2(v) - 1.0 < LinALog(v) && LinALog(v) < log2(v) + 1.0
+//@ axiom LinGrowth(x real, d real)
+//@   requires d >= 0.0
+//@   ensures LinAInv(x + d) <= LinAInv(x) * exp(d)
+
+//@ lemma LinAInvMonoLe(x real, y real)
+//@   serves C03
+//@   requires x <= y
+//@   ensures LinAInv(x) <= LinAInv(y) using LinAInvMono(x, y)
+
+//@ lemma LinI1(i int, j int, off real, mult real)
+//@   serves C03
+//@   requires mult > 0.0 && i < j
+//@   ensures 0.0 < LinEB(i, off, mult) && LinEB(i, off, mult) < LinEB(j, off, mult) using LinAInvPos((float64(i) - off) / mult), LinAInvMono((float64(i) - off) / mult, (float64(j) - off) / mult), LinEB$def(i, off, mult), LinEB$def(j, off, mult)
+//@   pattern LinEB(i, off, mult), LinEB(j, off, mult)
+
+//@ lemma LinI5(i int, j int, off real, mult real, gamma real)
+//@   serves C03
+//@   requires gamma > 1.0 && mult == 1.0 / log2(gamma) && j == i + 1
+//@   ensures I5At(LinEB(j, off, mult), LinEB(i, off, mult), 1.0 - 2.0 / (1.0 + exp(log2(gamma)))) using LinGrowth((float64(i) - off) / mult, log2(gamma)), Log2Pos(gamma), ExpPos(log2(gamma)), LinAInvPos((float64(i) - off) / mult), LinEB$def(i, off, mult), LinEB$def(j, off, mult), I5At$def(LinEB(j, off, mult), LinEB(i, off, mult), 1.0 - 2.0 / (1.0 + exp(log2(gamma))))
+//@   pattern LinEB(i, off, mult), LinEB(j, off, mult), log2(gamma)
+
+//@ lemma LinI2(v real, off real, mult real)
+//@   serves C03
+//@   requires mult > 0.0 && v > 0.0 && -2147483648.0 < LinLX(v, off, mult) && LinLX(v, off, mult) <= 2147483647.0
+//@   ensures in32(FloorIdx(LinLX(v, off, mult))) && LinEB(FloorIdx(LinLX(v, off, mult)), off, mult) <= v && v <= LinEB(FloorIdx(LinLX(v, off, mult)) + 1, off, mult) using LinAInvLog(v), LinAInvMonoLe((float64(FloorIdx(LinLX(v, off, mult))) - off) / mult, LinALog(v)), LinAInvMonoLe(LinALog(v), (float64(FloorIdx(LinLX(v, off, mult)) + 1) - off) / mult), FloorIdx$def(LinLX(v, off, mult)), LinLX$def(v, off, mult), LinEB$def(FloorIdx(LinLX(v, off, mult)), off, mult), LinEB$def(FloorIdx(LinLX(v, off, mult)) + 1, off, mult)
+
+//@ lemma LinLow(v real, off real, mult real)
+//@   serves C03
+//@   requires mult > 0.0 && v >= exp2((-2147483648.0 - off) / mult + 1.0)
+//@   ensures v > 0.0 && LinLX(v, off, mult) > -2147483648.0 using Exp2Pos((-2147483648.0 - off) / mult + 1.0), Log2MonoLe(exp2((-2147483648.0 - off) / mult + 1.0), v), Log2Exp2((-2147483648.0 - off) / mult + 1.0), LinALogNear(v), LinLX$def(v, off, mult)
+
+//@ lemma LinHigh(v real, off real, mult real)
+//@   serves C03
+//@   requires mult > 0.0 && v > 0.0 && v <= exp2((2147483647.0 - off) / mult - 1.0)
+//@   ensures LinLX(v, off, mult) <= 2147483647.0 using Log2MonoLe(v, exp2((2147483647.0 - off) / mult - 1.0)), Log2Exp2((2147483647.0 - off) / mult - 1.0), LinALogNear(v), LinLX$def(v, off, mult)
+
+//@ lemma LinI3(v real, w real, off real, mult real)
+//@   serves C03
+//@   requires mult > 0.0 && 0.0 < v && v <= w && -2147483648.0 < LinLX(v, off, mult) && LinLX(w, off, mult) <= 2147483647.0
+//@   ensures FloorIdx(LinLX(v, off, mult)) <= FloorIdx(LinLX(w, off, mult)) using LinALogMono(v, w), LinLX$def(v, off, mult), LinLX$def(w, off, mult), FloorIdx$def(LinLX(v, off, mult)), FloorIdx$def(LinLX(w, off, mult))
+
+//@ lemma LinI2c(v real, off real, mult real)
+//@   serves C03
+//@   requires mult > 0.0 && v >= exp2((-2147483648.0 - off) / mult + 1.0) && v <= exp2((2147483647.0 - off) / mult - 1.0)
+//@   ensures in32(FloorIdx(LinLX(v, off, mult))) && LinEB(FloorIdx(LinLX(v, off, mult)), off, mult) <= v && v <= LinEB(FloorIdx(LinLX(v, off, mult)) + 1, off, mult) using LinLow(v, off, mult), LinHigh(v, off, mult), LinI2(v, off, mult)
+//@   pattern LinLX(v, off, mult)
+
+//@ lemma LinI3c(v real, w real, off real, mult real)
+//@   serves C03
+//@   requires mult > 0.0 && v >= exp2((-2147483648.0 - off) / mult + 1.0) && v <= w && w <= exp2((2147483647.0 - off) / mult - 1.0)
+//@   ensures FloorIdx(LinLX(v, off, mult)) <= FloorIdx(LinLX(w, off, mult)) using LinLow(v, off, mult), LinHigh(w, off, mult), LinI3(v, w, off, mult)
+//@   pattern LinLX(v, off, mult), LinLX(w, off, mult)
+
 //@ func NewLinearlyInterpolatedMappingWithGamma
 //@   serves C03 C13 C19
-//@   trusted MapOK of the constructed mapping is established in DESIGN 4 C03; assumed here until those obligations are generated
+//@   uses LinI1 LinI5 LinI2c LinI3c Log2Pos ExpPos Exp2Pos ExpGtOne PowDef
 //@   ensures reject: gamma <= 1.0 ==> result == nil && result1 != nil
-//@   ensures accept: gamma > 1.0 ==> result1 == nil && result != nil && fresh(result) && MapOK(result) && result.gamma == gamma && result.indexOffset == indexOffset
+//@   ensures accept: gamma > 1.0 ==> result1 == nil && result != nil && fresh(result) && result.gamma == gamma && result.indexOffset == indexOffset
+//@   ensures ok: gamma > 1.0 && result.minIndexableValue <= result.maxIndexableValue ==> MapOK(result)
+
+// ---------------------------------------------------------------- CubicallyInterpolatedMapping: assumed analytic properties of
+// approximateLog (CubALog) and approximateInverseLog (CubAInv) - TRUSTED, not proved (bit-level code, see DESIGN):
+// the inverse is positive, strictly increasing and inverts CubALog on the positive reals; CubALog is
+// non-decreasing and within 1 of log2; over a step d >= 0 the inverse grows by at most exp(fl(0.7) * d).
+//@ axiom CubAInvPos(x real)
+//@   ensures CubAInv(x) > 0.0
+//@ axiom CubAInvMono(x real, y real)
+//@   requires x < y
+//@   ensures CubAInv(x) < CubAInv(y)
+//@ axiom CubAInvLog(v real)
+//@   requires v > 0.0
+//@   ensures CubAInv(CubALog(v)) == v
+//@ axiom CubALogMono(v real, w real)
+//@   requires 0.0 < v && v <= w
+//@   ensures CubALog(v) <= CubALog(w)
+//@ axiom CubALogNear(v real)
+//@   requires v > 0.0
+//@   ensures log2(v) - 1.0 < CubALog(v) && CubALog(v) < log2(v) + 1.0
+//@ axiom CubGrowth(x real, d real)
+//@   requires d >= 0.0
+//@   ensures CubAInv(x + d) <= CubAInv(x) * exp(fl(0.7) * d)
+
+//@ lemma CubAInvMonoLe(x real, y real)
+//@   serves C03
+//@   requires x <= y
+//@   ensures CubAInv(x) <= CubAInv(y) using CubAInvMono(x, y)
+
+//@ lemma CubI1(i int, j int, off real, mult real)
+//@   serves C03
+//@   requires mult > 0.0 && i < j
+//@   ensures 0.0 < CubEB(i, off, mult) && CubEB(i, off, mult) < CubEB(j, off, mult) using CubAInvPos((float64(i) - off) / mult), CubAInvMono((float64(i) - off) / mult, (float64(j) - off) / mult), CubEB$def(i, off, mult), CubEB$def(j, off, mult)
+//@   pattern CubEB(i, off, mult), CubEB(j, off, mult)
+
+//@ lemma CubI5(i int, j int, off real, mult real, gamma real)
+//@   serves C03
+//@   requires gamma > 1.0 && mult == 1.0 / log2(gamma) && j == i + 1
+//@   ensures I5At(CubEB(j, off, mult), CubEB(i, off, mult), 1.0 - 2.0 / (1.0 + exp(fl(0.7) * log2(gamma)))) using CubGrowth((float64(i) - off) / mult, log2(gamma)), Log2Pos(gamma), ExpPos(fl(0.7) * log2(gamma)), CubAInvPos((float64(i) - off) / mult), CubEB$def(i, off, mult), CubEB$def(j, off, mult), I5At$def(CubEB(j, off, mult), CubEB(i, off, mult), 1.0 - 2.0 / (1.0 + exp(fl(0.7) * log2(gamma))))
+//@   pattern CubEB(i, off, mult), CubEB(j, off, mult), log2(gamma)
+
+//@ lemma CubI2(v real, off real, mult real)
+//@   serves C03
+//@   requires mult > 0.0 && v > 0.0 && -2147483648.0 < CubLX(v, off, mult) && CubLX(v, off, mult) <= 2147483647.0
+//@   ensures in32(FloorIdx(CubLX(v, off, mult))) && CubEB(FloorIdx(CubLX(v, off, mult)), off, mult) <= v && v <= CubEB(FloorIdx(CubLX(v, off, mult)) + 1, off, mult) using CubAInvLog(v), CubAInvMonoLe((float64(FloorIdx(CubLX(v, off, mult))) - off) / mult, CubALog(v)), CubAInvMonoLe(CubALog(v), (float64(FloorIdx(CubLX(v, off, mult)) + 1) - off) / mult), FloorIdx$def(CubLX(v, off, mult)), CubLX$def(v, off, mult), CubEB$def(FloorIdx(CubLX(v, off, mult)), off, mult), CubEB$def(FloorIdx(CubLX(v, off, mult)) + 1, off, mult)
+
+//@ lemma CubLow(v real, off real, mult real)
+//@   serves C03
+//@   requires mult > 0.0 && v >= exp2((-2147483648.0 - off) / mult + 1.0)
+//@   ensures v > 0.0 && CubLX(v, off, mult) > -2147483648.0 using Exp2Pos((-2147483648.0 - off) / mult + 1.0), Log2MonoLe(exp2((-2147483648.0 - off) / mult + 1.0), v), Log2Exp2((-2147483648.0 - off) / mult + 1.0), CubALogNear(v), CubLX$def(v, off, mult)
+
+//@ lemma CubHigh(v real, off real, mult real)
+//@   serves C03
+//@   requires mult > 0.0 && v > 0.0 && v <= exp2((2147483647.0 - off) / mult - 1.0)
+//@   ensures CubLX(v, off, mult) <= 2147483647.0 using Log2MonoLe(v, exp2((2147483647.0 - off) / mult - 1.0)), Log2Exp2((2147483647.0 - off) / mult - 1.0), CubALogNear(v), CubLX$def(v, off, mult)
+
+//@ lemma CubI3(v real, w real, off real, mult real)
+//@   serves C03
+//@   requires mult > 0.0 && 0.0 < v && v <= w && -2147483648.0 < CubLX(v, off, mult) && CubLX(w, off, mult) <= 2147483647.0
+//@   ensures FloorIdx(CubLX(v, off, mult)) <= FloorIdx(CubLX(w, off, mult)) using CubALogMono(v, w), CubLX$def(v, off, mult), CubLX$def(w, off, mult), FloorIdx$def(CubLX(v, off, mult)), FloorIdx$def(CubLX(w, off, mult))
+
+//@ lemma CubI2c(v real, off real, mult real)
+//@   serves C03
+//@   requires mult > 0.0 && v >= exp2((-2147483648.0 - off) / mult + 1.0) && v <= exp2((2147483647.0 - off) / mult - 1.0)
+//@   ensures in32(FloorIdx(CubLX(v, off, mult))) && CubEB(FloorIdx(CubLX(v, off, mult)), off, mult) <= v && v <= CubEB(FloorIdx(CubLX(v, off, mult)) + 1, off, mult) using CubLow(v, off, mult), CubHigh(v, off, mult), CubI2(v, off, mult)
+//@   pattern CubLX(v, off, mult)
+
+//@ lemma CubI3c(v real, w real, off real, mult real)
+//@   serves C03
+//@   requires mult > 0.0 && v >= exp2((-2147483648.0 - off) / mult + 1.0) && v <= w && w <= exp2((2147483647.0 - off) / mult - 1.0)
+//@   ensures FloorIdx(CubLX(v, off, mult)) <= FloorIdx(CubLX(w, off, mult)) using CubLow(v, off, mult), CubHigh(w, off, mult), CubI3(v, w, off, mult)
+//@   pattern CubLX(v, off, mult), CubLX(w, off, mult)
+
 //@ func NewCubicallyInterpolatedMappingWithGamma
 //@   serves C03 C13 C19
-//@   trusted MapOK of the constructed mapping is established in DESIGN 4 C03; assumed here until those obligations are generated
+//@   uses CubI1 CubI5 CubI2c CubI3c Log2Pos ExpPos Exp2Pos ExpGtOne PowDef
 //@   ensures reject: gamma <= 1.0 ==> result == nil && result1 != nil
-//@   ensures accept: gamma > 1.0 ==> result1 == nil && result != nil && fresh(result) && MapOK(result) && result.gamma == gamma && result.indexOffset == indexOffset
+//@   ensures accept: gamma > 1.0 ==> result1 == nil && result != nil && fresh(result) && result.gamma == gamma && result.indexOffset == indexOffset
+//@   ensures ok: gamma > 1.0 && result.minIndexableValue <= result.maxIndexableValue ==> MapOK(result)
+
+// ---------------------------------------------------------------- constructors from an accuracy (interpolated)
+//@ func NewLinearlyInterpolatedMapping
+//@   serves C03 C13
+//@   uses PowDef LnPos ExpGtOne Log2Pos
+//@   ensures reject: !(relativeAccuracy > 0.0 && relativeAccuracy < 1.0) ==> result == nil && result1 != nil
+//@   ensures accept: relativeAccuracy > 0.0 && relativeAccuracy < 1.0 ==> result1 == nil && result != nil && fresh(result) && (result.minIndexableValue <= result.maxIndexableValue ==> MapOK(result))
+//@ func NewCubicallyInterpolatedMapping
+//@   serves C03 C13
+//@   uses PowDef LnPos ExpGtOne
+//@   ensures reject: !(relativeAccuracy > 0.0 && relativeAccuracy < 1.0) ==> result == nil && result1 != nil
+//@   ensures accept: relativeAccuracy > 0.0 && relativeAccuracy < 1.0 ==> result1 == nil && result != nil && fresh(result) && (result.minIndexableValue <= result.maxIndexableValue ==> MapOK(result)) && result.indexOffset == 0.0
+
+// ---------------------------------------------------------------- identity through the protobuf message (C19)
+// ToProto records kind, base and offset; FromProto rebuilds a mapping of that kind from exactly those two numbers
+// (or refuses): the rebuilt mapping has identical fields, hence identical Index/Value/LowerBound and Equals.
+//@ func LogarithmicMapping.ToProto
+//@   serves C19 C09
+//@   ensures result != nil && fresh(result) && result.Gamma == m.gamma && result.IndexOffset == m.indexOffset && result.Interpolation == sketchpb.IndexMapping_NONE
+//@ func LinearlyInterpolatedMapping.ToProto
+//@   serves C19 C09
+//@   ensures result != nil && fresh(result) && result.Gamma == m.gamma && result.IndexOffset == m.indexOffset && result.Interpolation == sketchpb.IndexMapping_LINEAR
+//@ func CubicallyInterpolatedMapping.ToProto
+//@   serves C19 C09
+//@   ensures result != nil && fresh(result) && result.Gamma == m.gamma && result.IndexOffset == m.indexOffset && result.Interpolation == sketchpb.IndexMapping_CUBIC
+//@ func FromProto
+//@   serves C19 C09 C13
+//@   ensures nil: m == nil ==> result == nil && result1 != nil
+//@   ensures refuse: m != nil && (m.Gamma <= 1.0 || !(m.Interpolation == sketchpb.IndexMapping_NONE || m.Interpolation == sketchpb.IndexMapping_LINEAR || m.Interpolation == sketchpb.IndexMapping_CUBIC)) ==> result1 != nil
+//@   ensures build: m != nil && result1 == nil ==> result != nil && (MRange(result) ==> MapOK(result)) && MGamma(result) == m.Gamma && MOffset(result) == m.IndexOffset
+//@   ensures kind: m != nil && result1 == nil ==> (m.Interpolation == sketchpb.IndexMapping_NONE ==> is(result, *LogarithmicMapping)) && (m.Interpolation == sketchpb.IndexMapping_LINEAR ==> is(result, *LinearlyInterpolatedMapping)) && (m.Interpolation == sketchpb.IndexMapping_CUBIC ==> is(result, *CubicallyInterpolatedMapping))
+
+// ---------------------------------------------------------------- equality (C19)
+// A mapping is determined by its kind, base and offset (every other field is a function of those two, by the
+// constructor contracts); Equals compares exactly these. Reflexive, symmetric, never across kinds; bases more than
+// a relative 1e-12 apart are never equal.
+//@ lemma MEqRefl(a IndexMapping)
+//@   serves C19
+//@   requires MapOK(a)
+//@   ensures MEq(a, a)
+//@ lemma MEqSym(a IndexMapping, b IndexMapping)
+//@   serves C19
+//@   requires MapOK(a) && MapOK(b) && MEq(a, b)
+//@   ensures MEq(b, a)
+//@ lemma MEqKinds(a IndexMapping, b IndexMapping)
+//@   serves C19
+//@   requires MapOK(a) && MapOK(b) && dyntype(a) != dyntype(b)
+//@   ensures !MEq(a, b)
+//@ lemma MEqSameFields(a IndexMapping, b IndexMapping)
+//@   serves C19
+//@   requires MapOK(a) && MapOK(b) && dyntype(a) == dyntype(b) && MGamma(a) == MGamma(b) && MOffset(a) == MOffset(b)
+//@   ensures MEq(a, b)
+//@ lemma MEqApart(a IndexMapping, b IndexMapping)
+//@   serves C19
+//@   requires MapOK(a) && MapOK(b) && MGamma(b) > MGamma(a) * (1.0 + 1e-11)
+//@   ensures !MEq(a, b)
